@@ -56,8 +56,10 @@ def jobs(tier, seed, prop):
     enums = "".join(tables.cut_enum(n, R)[0] for n in ("TypeOneDRule", "TypeDepth", "TypeRefinement"))
     preds = u_apiwrap.emit_predicates(R)
     ct, cinfo = apiwrap.emit_copyGrid(R)
+    wt, winfo = apiwrap.emit(R, tags=["clear", "setDomainTransform_vec"])      # callees of copyGrid, extracted as well
+    cinfo["functions"] += [f for f in winfo["functions"]]
     cf = ContractFile("contracts/apiwrap.c")
-    pre = ('#include "tsg_shim.h"\nint tsg_exc;\n#define PROP_C07 0\n#define PROP_C08 0\n#define PROP_C14 0\n' + enums + '#line 1 "/verif/contracts/apiwrap.c"\n' + cf.text(("text",)) + preds + ct)
+    pre = ('#include "tsg_shim.h"\nint tsg_exc;\n#define PROP_C07 0\n#define PROP_C08 0\n#define PROP_C14 0\n' + enums + '#line 1 "/verif/contracts/apiwrap.c"\n' + cf.text(("text",)) + preds + wt + ct)
     out.append(Job("copy.copyGrid", pre + cf.text(("harness",), ["h_copyGrid"]), "h_copyGrid", unwind=9, timeout=120,
                    functions=["%s:%d %s" % (f["file"], f["line"], f["name"]) for f in cinfo["functions"]], info=cinfo, replay=replay_alias(prop),
                    assumed=["family copy constructors copy every member of the source family object (restricted to the output range); their bodies are not under contract (G4 not built)"],
